@@ -104,6 +104,8 @@ def enc_leaf(name, v, o):
         return [v.x, v.y]
     if name == "asertype":
         return {"d": enc_leaf("date", v.d, o)}
+    if name == "abag":
+        return list(v.items)
     raise ValueError(name)
 
 
@@ -332,6 +334,8 @@ def dec_leaf(name, x, o):
     if name == "asertype":
         inner = decode(("dict", ("leaf", "str"), ("leaf", "date")), x, None, o)
         return _ctor(lambda: tmod.APt(inner["d"]))
+    if name == "abag":
+        return tmod.Bag(decode(("list", ("leaf", "int")), x, None, o))
     raise ValueError(name)
 
 
@@ -632,7 +636,7 @@ LEAF_CLASS = {
     "pureposixpath": pathlib.PurePosixPath, "posixpath": pathlib.PosixPath,
     "purewindowspath": pathlib.PureWindowsPath, "ospathlike": pathlib.PurePosixPath, "pattern": re.Pattern,
     "enum_str": tmod.ES, "enum_int": tmod.EI, "intenum": tmod.IE, "strenum": tmod.SE, "flag": tmod.FL,
-    "intflag": tmod.IFL, "newtype_int": int, "sertype": tmod.Pt, "asertype": tmod.APt, "literalstring": str,
+    "intflag": tmod.IFL, "newtype_int": int, "sertype": tmod.Pt, "asertype": tmod.APt, "abag": tmod.Bag, "literalstring": str,
 }
 
 
